@@ -36,6 +36,11 @@ Definition x_nljoin (t : jty) (cond : sx) (nr : nat) (L R : chunks) : option (li
 
 (** hash join: the LEFT input is the build side; rows whose key contains a NULL stay out of the
     table; keys are compared with DataValue equality (Int32 1 <> Int64 1) *)
+(** executor::build (resolve_join_keys) casts a pair of numeric join keys of different types to the
+    wider one before the hash / merge join sees them; DataValue equality and order of two integers
+    of ONE width are the numeric ones, so on columns of one type each the executors compare integer
+    keys as if all were of full width: the key lists the join executors run with *)
+Definition wide_keys (ks : list sx) : list sx := map SWide ks.
 Definition x_hashjoin (t : jty) (lk rk : list sx) (nl nr : nat) (L R : chunks) : list row :=
   let Ls := concat L in let Rs := concat R in
   let table := filter (fun l => negb (has_null (keys_of lk l))) Ls in
